@@ -98,6 +98,11 @@ fn main() {
             let out = out.unwrap_or_else(|| usage());
             std::process::exit(checks::c03::worker(shard, nshards, seed, tier, &out, trace.as_deref(), only))
         }
+        "c03-one" => {
+            let text = input.as_deref().and_then(|f| std::fs::read_to_string(f).ok()).unwrap_or_else(|| usage());
+            let out = out.unwrap_or_else(|| usage());
+            std::process::exit(checks::c03::one(&text, &out))
+        }
         "mkcorpus" => {
             // (re)generate the committed seed corpora of the fuzz targets
             std::process::exit(ffv::fuzzdec::make_corpora(seed))
